@@ -279,7 +279,7 @@ class Run:
             ob.status, ob.detail = 'ERROR', 'environment incomplete: no body for %s' % sorted(set(nb))[:8]
             return ob
         if verdict is None or rc not in (0, 10):
-            ob.status = 'UNDECIDED' if ('std::bad_alloc' in err or 'Out of memory' in err or rc in (-9, 137)) else 'ERROR'
+            ob.status = 'UNDECIDED' if ('std::bad_alloc' in err or 'ut of memory' in err or 'ut of memory' in out or rc in (-9, 137)) else 'ERROR'
             ob.detail = 'cbmc rc=%s: %s' % (rc, (err.strip() or out.strip())[-1500:])
             return ob
         failed = [(n, d) for n, d, s in props if s in ('FAILURE', 'ERROR')]
